@@ -444,6 +444,21 @@ pub fn build(ctx: &Ctx) -> Property {
     public::<backends::V3L>(&mut p, ctx);
     public::<backends::V4>(&mut p, ctx);
     public::<backends::V4S>(&mut p, ctx);
+    macro_rules! seq {
+        ($V:ty) => {
+            for sub in ["local/bit-exact", "public/spec"] {
+                let name = format!("{}/{sub}", <$V as Full>::NAME);
+                let len = p.subs.iter().find(|s| s.name == name).map(|s| s.len).unwrap_or(0);
+                crate::perturb::add_sequences::<$V>(&mut p, &name, crate::perturb::spread(len, 4));
+            }
+        };
+    }
+    seq!(backends::V1);
+    seq!(backends::V2);
+    seq!(backends::V3);
+    seq!(backends::V3L);
+    seq!(backends::V4);
+    seq!(backends::V4S);
     p.subs.push(ecdsa_nonce_sub(ctx));
     siblings(&mut p, ctx);
     p.assume("reference models are written from the specifications with RustCrypto primitives (AES-256-CTR as a full 128-bit big-endian counter) and reproduce every official vector; independent verifiers / signers: aws-lc-rs (RSA-PSS, ECDSA, Ed25519) and RustCrypto p384");
